@@ -105,6 +105,10 @@ namespace OP2Utility::Tileset
 		PpalHeader ppalHeader = PpalHeader::Create();
 		
 		SectionHeader paletteHeader{ DefaultTagData, DefaultPaletteHeaderSize };
+		// The palette section has a fixed length. A bitmap declaring fewer used colors loads with a partial palette: pad it with black
+		if (tileset.palette.size() < DefaultPaletteHeaderSize / sizeof(Color)) {
+			tileset.palette.resize(DefaultPaletteHeaderSize / sizeof(Color));
+		}
 		SwapPaletteRedAndBlue(tileset.palette);
 
 		SectionHeader pixelHeader{ DefaultTagData, CalculatePixelHeaderLength(absoluteHeight) };
